@@ -2,6 +2,7 @@ import OrbitModel.Model.Lifecycle
 import OrbitModel.Proofs.GenEqClose
 import OrbitModel.Proofs.EmitterStop
 import OrbitModel.Proofs.CrashSummary
+import OrbitModel.Proofs.GenEqWatch
 /-!
 # C18 — Close and Drop are clean: idempotent, leak-free, scoped to one database
 
@@ -59,5 +60,12 @@ theorem pinned_tree_leaks_goroutine (acts : List Act) :
 /-- `Close` in the Go text of this run tests the already-closed guard before anything else, and
 unregisters the store (by address, in its instance) only after it -/
 theorem close_order_tied_to_go_text : Gen.closeOrder = Order.close := gen_close_order
+
+/-- the pubsub adapter in the Go text of this run closes the subscription of the underlying pubsub
+when the goroutine reading it ends (after the `fix:` commit, finding F39: it never did — the node
+stayed on the topic after the store was closed, and its peers saw it neither leave nor come back;
+the harness counts the open subscriptions of its pubsub API after every store is closed) -/
+theorem watcher_closes_its_subscription_tied_to_go_text : Gen.watchMessagesOrder = Order.watchMessages :=
+  gen_watchMessages_order
 
 end Orbit.C18
